@@ -101,7 +101,7 @@ def bnode_structure(draw, max_nodes=10, pre="n"):
     elif shape in (2, 8):
         # two relations over the same nodes, each a permutation: every node has one edge in and one out per predicate, so colour
         # refinement alone cannot split anything and the search over individualisations decides
-        n = draw(st.integers(3, min(8, max_nodes)))
+        n = draw(st.one_of(st.integers(3, min(8, max_nodes)), st.integers(4, 6)))
         edges = list(enumerate(draw(st.permutations(range(n)))))
         extra = list(enumerate(draw(st.permutations(range(n)))))
         name = "two-permutations"
